@@ -8,7 +8,7 @@
 //!
 //! The auxiliary structures add approximately 3-5% space overhead:
 //! - Superblock ranks: 1 u32 per 512 bits = 0.78% overhead
-//! - Block ranks: 1 u8 per 64 bits = 1.56% overhead
+//! - Block ranks: 7 x 9 bits packed in 1 u64 per 512 bits = 1.56% overhead
 //! - Select samples: 1 u32 per 4096 1-bits ≈ 0.1% for dense vectors
 //!
 //! # Performance
@@ -59,10 +59,11 @@ pub struct SuccinctBitVector {
     /// superblock_ranks[i] = number of 1-bits in [0, i * SUPERBLOCK_BITS).
     superblock_ranks: Vec<u32>,
 
-    /// Relative rank within superblock for each block.
-    /// block_ranks[i] = number of 1-bits from superblock start to block i start.
-    /// Uses u8 since max value is SUPERBLOCK_BITS - BLOCK_BITS = 448.
-    block_ranks: Vec<u8>,
+    /// Relative rank within superblock for each block, one packed word per superblock.
+    /// Bits [9*(j-1), 9*j) of block_ranks[s] = number of 1-bits from the start of superblock s
+    /// to the start of its j-th block (j = 1..=7; block 0 is always 0). 9 bits each because the
+    /// max value is SUPERBLOCK_BITS - BLOCK_BITS = 448.
+    block_ranks: Vec<u64>,
 
     /// Sample positions for select1.
     /// select1_samples[i] = position of (i * SELECT_SAMPLE_RATE)-th 1-bit.
@@ -93,7 +94,8 @@ impl SuccinctBitVector {
         let num_blocks = (len + BLOCK_BITS - 1) / BLOCK_BITS;
 
         let mut superblock_ranks = Vec::with_capacity(num_superblocks);
-        let mut block_ranks = Vec::with_capacity(num_blocks);
+        let mut block_ranks =
+            vec![0u64; (num_blocks + BLOCKS_PER_SUPERBLOCK - 1) / BLOCKS_PER_SUPERBLOCK];
         let mut select1_samples = Vec::new();
         let mut select0_samples = Vec::new();
 
@@ -114,7 +116,11 @@ impl SuccinctBitVector {
 
             // Store relative rank within superblock
             let relative_rank = cumulative_ones - superblock_start_ones;
-            block_ranks.push(relative_rank as u8);
+            let slot = block_idx % BLOCKS_PER_SUPERBLOCK;
+            if slot > 0 {
+                block_ranks[block_idx / BLOCKS_PER_SUPERBLOCK] |=
+                    u64::from(relative_rank) << (9 * (slot - 1));
+            }
 
             // Count bits in this word
             let bits_in_word = if bit_pos + BLOCK_BITS <= len {
@@ -239,8 +245,8 @@ impl SuccinctBitVector {
         let mut rank = self.superblock_ranks[superblock_idx] as usize;
 
         // Add block relative count
-        if block_idx < self.block_ranks.len() {
-            rank += self.block_ranks[block_idx] as usize;
+        if block_idx < self.inner.data().len() {
+            rank += self.block_rank(block_idx);
         }
 
         // Add popcount within the current word
@@ -304,12 +310,12 @@ impl SuccinctBitVector {
 
         // Find the block within the superblock
         let block_start = superblock_idx * BLOCKS_PER_SUPERBLOCK;
-        let block_end = ((superblock_idx + 1) * BLOCKS_PER_SUPERBLOCK).min(self.block_ranks.len());
+        let block_end = ((superblock_idx + 1) * BLOCKS_PER_SUPERBLOCK).min(self.inner.data().len());
         let superblock_base_rank = self.superblock_ranks[superblock_idx] as usize;
 
         let mut block_idx = block_start;
         for i in block_start..block_end {
-            let block_rank = superblock_base_rank + self.block_ranks[i] as usize;
+            let block_rank = superblock_base_rank + self.block_rank(i);
             if block_rank >= target_rank {
                 break;
             }
@@ -317,7 +323,7 @@ impl SuccinctBitVector {
         }
 
         // Linear scan within the block
-        let block_base_rank = superblock_base_rank + self.block_ranks[block_idx] as usize;
+        let block_base_rank = superblock_base_rank + self.block_rank(block_idx);
         let remaining = k - block_base_rank;
 
         if block_idx >= self.inner.data().len() {
@@ -371,6 +377,15 @@ impl SuccinctBitVector {
         } else {
             None
         }
+    }
+
+    /// Number of 1-bits from the start of the enclosing superblock to the start of block `block_idx`.
+    fn block_rank(&self, block_idx: usize) -> usize {
+        let slot = block_idx % BLOCKS_PER_SUPERBLOCK;
+        if slot == 0 {
+            return 0;
+        }
+        ((self.block_ranks[block_idx / BLOCKS_PER_SUPERBLOCK] >> (9 * (slot - 1))) & 0x1FF) as usize
     }
 
     /// Binary search for the superblock containing the target rank.
@@ -429,7 +444,7 @@ impl SuccinctBitVector {
     #[must_use]
     pub fn auxiliary_size_bytes(&self) -> usize {
         self.superblock_ranks.len() * 4
-            + self.block_ranks.len()
+            + self.block_ranks.len() * 8
             + self.select1_samples.len() * 4
             + self.select0_samples.len() * 4
     }
